@@ -7,15 +7,42 @@ pub fn read_message<R: Read>(r: &mut R) -> Result<Message, RepeError> {
     let mut hdr_buf = [0u8; HEADER_SIZE];
     read_exact(r, &mut hdr_buf)?;
     let header = Header::decode(&hdr_buf)?;
-    let mut query = vec![0u8; header.query_length as usize];
+    let mut query = zeroed_payload(header.query_length)?;
     if !query.is_empty() {
         read_exact(r, &mut query)?;
     }
-    let mut body = vec![0u8; header.body_length as usize];
+    let mut body = zeroed_payload(header.body_length)?;
     if !body.is_empty() {
         read_exact(r, &mut body)?;
     }
     Message::new(header, query, body)
+}
+
+/// Allocate a zeroed buffer for a payload whose length came off the wire.
+///
+/// The length is peer-controlled, so an allocation failure must surface as an
+/// error: `vec![0; n]` aborts the whole process when `n` cannot be allocated,
+/// which would let one 48-byte header take down a server or client.
+pub(crate) fn zeroed_payload(len: u64) -> Result<Vec<u8>, RepeError> {
+    let mut buf = Vec::new();
+    grow_zeroed(&mut buf, len)?;
+    Ok(buf)
+}
+
+/// Grow `buf` with zeros to `len` bytes, reporting an unsatisfiable length as an
+/// error instead of aborting. See [`zeroed_payload`].
+pub(crate) fn grow_zeroed(buf: &mut Vec<u8>, len: u64) -> Result<(), RepeError> {
+    let too_large = || {
+        RepeError::Io(std::io::Error::new(
+            std::io::ErrorKind::OutOfMemory,
+            format!("declared frame length of {len} bytes cannot be allocated"),
+        ))
+    };
+    let len = usize::try_from(len).map_err(|_| too_large())?;
+    let additional = len.saturating_sub(buf.len());
+    buf.try_reserve_exact(additional).map_err(|_| too_large())?;
+    buf.resize(len, 0);
+    Ok(())
 }
 
 /// Read a full REPE message frame into `buf`, reusing its allocation across
@@ -34,8 +61,9 @@ pub fn read_message_into<R: Read>(r: &mut R, buf: &mut Vec<u8>) -> Result<(), Re
     buf.resize(HEADER_SIZE, 0);
     read_exact(r, &mut buf[..HEADER_SIZE])?;
     let header = Header::decode(&buf[..HEADER_SIZE])?;
-    let total = HEADER_SIZE + header.query_length as usize + header.body_length as usize;
-    buf.resize(total, 0);
+    // `Header::decode` proved `length == 48 + query + body` without overflow.
+    grow_zeroed(buf, header.length)?;
+    let total = buf.len();
     read_exact(r, &mut buf[HEADER_SIZE..total])?;
     Ok(())
 }
